@@ -1,14 +1,23 @@
 ID = "C13"
 LEVEL = "other"
-CONTRACT_MODULES = []
-FUNCTIONS = []
+CONTRACT_MODULES = ["contracts.sorting", "contracts.refcount", "contracts.tasks", "contracts.tasks_proto"]
+FUNCTIONS = ["Manager.mk_fun", "Manager.find_tasks", "Manager.find_taskids", "toposort"]
 RAC = "rac/c13.py"
 RAC_BUDGET = {"quick": 60, "thorough": 900}
 DESIGN_REF = "DESIGN.md section 4, C13"
-TECHNIQUE = "run-time contracts (bounded); deductive part under construction"
-TRUSTED = ["Python's parser / eval / exec", "lark"]
-ASSUMPTIONS = []
-BOUNDED = ["everything (this revision)"]
-EXPLANATION = "bounded run-time contract check"
-LEVEL_TEXT = "bounded"
-LEVEL_NOTE = "bounded"
+TECHNIQUE = ("contract-based deductive verification of the structure of the generated source (pyvc: Manager.mk_fun against the proved "
+             "find_tasks/toposort contracts, f-strings and joins as uninterpreted text functions; z3) + run-time translation validation: "
+             "generated setter vs set_value on twin managers")
+TRUSTED = ["Python's exec / parser: executing the generated text performs the stores and evaluations its lines denote (printing faithfulness "
+           "is C11's subject)", "f-strings and str.join as uninterpreted functions of their parts (equal parts, equal text)",
+           "virtual callee BaseRef._get_dependencies (proved under C05)", "pyvc container models, z3 / cvc5"]
+ASSUMPTIONS = ["expression-only managers (a FunctionTask prints as <Task ...> and cannot be part of a generated function)",
+               "equivalence with assigning through the manager (first sentence) follows from C01 for acyclic declared graphs; it is checked "
+               "at run time, not proved", "known finding K1 (C01) applies to both executions alike"]
+BOUNDED = ["container state after f(*values) == after set_value per argument: run-time only (all managers of <= 3/4 definitions x all argument "
+           "subsets of <= 3 undefined locations; arguments inside containers that another task reads as a whole; regeneration after a removal)"]
+EXPLANATION = ("proved: the text returned by mk_fun is the header, then one line `ref = argname` per keyword argument in order, then one line per "
+               "task of find_tasks(start) in order, where start is the union of the argument locations and their enclosing containers (what "
+               "set_value uses); by the proved find_tasks contract these are exactly the triggered tasks, once each, in dependency order")
+LEVEL_TEXT = "Mixed: structure of the generated source proved (23 + callee obligations), behavioural equivalence bounded at run time. Never claimed as proof."
+LEVEL_NOTE = "See TRUSTED / BOUNDED in the evidence file."
